@@ -30,6 +30,24 @@ NOT_YET = dict(HOLD)
 ALL = ["C%02d" % i for i in range(1, 20)]
 
 
+def hook_commits():
+    """the commits of /repo whose subject starts with 'hook:' (all guarded by cfg(ripgrep_verif), add-only); the list is
+    committed in MANIFEST.json, so it is only refreshed when the repository is at hand"""
+    import subprocess
+    try:
+        out = subprocess.run(["git", "-C", os.environ.get("VERIF_REPO", "/repo"), "log", "--reverse", "--format=%h %s"],
+                             capture_output=True, text=True, timeout=60).stdout
+        hs = [l.split()[0] for l in out.splitlines() if len(l.split()) > 1 and l.split()[1] == "hook:"]
+        if hs:
+            return hs
+    except Exception:
+        pass
+    try:
+        return json.load(open(os.path.join(ROOT, "MANIFEST.json")))["hooks"].get("source_commits", [])
+    except Exception:
+        return []
+
+
 def main():
     checks = []
     for pid in ALL:
@@ -56,7 +74,7 @@ def main():
         setup_cmd="./check --setup",
         hooks=dict(guard="ripgrep_verif", enable='RUSTFLAGS="--cfg ripgrep_verif" (set by tools/vlib.py for every cargo build)',
                    baseline_off_cmd="cd /repo && cargo test --workspace --no-fail-fast --offline",
-                   source_commits=[], add_only=True),
+                   source_commits=hook_commits(), add_only=True),
         engines=[dict(name="coq-model-correspondence", path="/verif/check",
                       serves_properties=sorted(CLAIMED),
                       kind_free_text="Coq 8.16 theorems about hand-written executable Gallina models; models extracted "
